@@ -17,5 +17,8 @@ meta={'id':mid,'breaks_property':P,'title':title,'clause_broken':sec('(?:Propert
  'confirmed':{'against_repo_head':head,'ok':ok,'result_line':result,'how':'tools/confirm_mutant.sh %s %s: scratch worktree of /repo at HEAD + patch; go build + go test -vet=off -count=1 ./... in shared, protocol, service, attachment, terminal; demonstration run against the changed worktree and against /repo; worktree removed'%tuple(mid.split('-')),
    'tests_with_change':'pass' if 'tests=pass' in result else 'FAIL','demo_on_changed_tree':'fail' if 'demo_on_change=fail' in result else 'pass','demo_on_unchanged_tree':'pass' if 'demo_on_repo=pass' in result else 'fail','demo_flags':flags},
  'demonstration':'demo/ (run with tools/run_demo.sh %s %s <tree>)'%tuple(mid.split('-'))}
+if not meta['clause_broken'] and not meta['needs_to_manifest']:
+    # README without the usual section names: keep its text (after the title) so the record is self-contained
+    meta['needs_to_manifest']=readme.split('\n',1)[1].strip()[:3000] if '\n' in readme else ''
 json.dump(meta,open(d+'/meta.json','w'),indent=1,ensure_ascii=False)
 print('meta',mid,'ok' if ok else 'NOT CONFIRMED')
